@@ -11,6 +11,7 @@ CONSTANTS
   OblLockCover = TRUE
   OblDirtyRefused = FALSE
   OblIdempotent = TRUE
+  OblMarker = TRUE
   OblFence = TRUE
   OblP1Atomic = TRUE
   OblLockQuery = TRUE
